@@ -263,6 +263,9 @@ def run_check(prop_id, tier, seed, replay=None, workers=None):  # noqa: C901, PL
                 pre = (ck.get('case') or {}).get('crash_key') if isinstance(ck.get('case'), dict) else None
                 if pre:
                     key = f'{prop_id}:crash:{pre}'
+                prefix = (ck.get('case') or {}).get('crash_prefix') if isinstance(ck.get('case'), dict) else None
+                if prefix:
+                    key = f'{prop_id}:crash:{prefix}:{_crash_class(rc, logtail, w.get("timed_out"))}'
                 merged['violations'].append(
                     {'property': prop_id, 'oracle': 'process-survives', 'key': key,
                      'case': ck.get('case'), 'detail': f'worker died ({how}) while executing case '
@@ -345,7 +348,7 @@ def run_check(prop_id, tier, seed, replay=None, workers=None):  # noqa: C901, PL
 
 
 def _crash_class(rc, logtail, timed_out):
-    if timed_out:
+    if timed_out or 'Timeout (0:' in logtail:
         return 'hang'
     if 'AddressSanitizer' in logtail:
         for kind in ('heap-use-after-free', 'heap-buffer-overflow', 'stack-overflow', 'SEGV',
